@@ -26,7 +26,7 @@ def run_source(src, **extra):
     if not os.path.exists(f):
         with open(f, 'w', encoding='utf-8') as fh:
             fh.write(docgen.SED)
-        for name, data in (('zz-lang.tex', b'% ' + b'x' * 3000 + b'\n\\selectlanguage{german}\n'), ('zz-empty.tex', b''), ('zz-foot.tex', b'% ' + b'x' * 500 + b'\nText in the file \\footnote{Foot text in the file} \\marginpar{Margin text}\n\\newcommand{\\zzfoot}{FOOT}\n'), ('zz-comment.tex', b'% only a comment\n'), ('zz-latin1.tex', b'\\newcommand{\\zzl}{gr\xf6\xdfer}\n')):
+        for name, data in (('zz-lang.tex', b'% ' + b'x' * 3000 + b'\n\\selectlanguage{german}\n'), ('zz-empty.tex', b''), ('zz-foot.tex', b'% ' + b'x' * 500 + b'\nText in the file \\footnote{Foot text in the file} \\marginpar{Margin text}\n\\newcommand{\\zzfoot}{FOOT}\n'), ('zz-comment.tex', b'% only a comment\n'), ('zz-nested.tex', b'\\LTinput{zz-comment.tex}\n'), ('zz-pack.tex', b'\\usepackage{xcolor}\n\\usepackage{amsthm}\n'), ('zz-latin1.tex', b'\\newcommand{\\zzl}{gr\xf6\xdfer}\n')):
             with open(os.path.join(d, name), 'wb') as fh:
                 fh.write(data)
     with watchdog(20):
